@@ -41,8 +41,8 @@ def numeric_state():
           'recursion': sys.getrecursionlimit()}
     dc = decimal.getcontext()
     st['decimal'] = '%s %s %s %s' % (dc.prec, dc.rounding, dc.Emin, dc.Emax)
-    s = np.random.get_state()
-    st['np.random'] = hashlib.md5(s[1].tobytes()).hexdigest()[:12] + ':%d' % s[2]
+    # (the global generators `random` / numpy.random are handled by c06_worker.ambient / consumed: they are put in a
+    #  different state before every operation and their consumption is reported per operation as 'grng')
     return st
 
 
@@ -58,9 +58,10 @@ def execute(op, get, returned=None):
     kw = {'error_model': em, 'error_probability': op['p']}
     syns = [op['syndrome']] if op['op'] == 'decode' else op['syndromes']
     snap = (code.stabilizers.tobytes(), code.logicals.tobytes())
-    out, mutated = [], []
-    for s in syns:
-        random.seed(20260930)      # the Y decoder's documented coin toss: same toss everywhere
+    out, mutated, used = [], [], {}
+    for si, s in enumerate(syns):
+        # documented random components: pinned toss; everything else: another state of the global generators each time
+        fp = W.ambient(op, dec, em)
         syndrome = W.bits(s)
         try:
             r = dec.decode(code, syndrome, **kw)
@@ -74,11 +75,17 @@ def execute(op, get, returned=None):
         except Exception as e:  # noqa
             res = 'ERR ' + type(e).__name__
         out.append(res)
+        for g in W.consumed(fp):
+            used.setdefault(g, si)
         if W.bitstr(syndrome) != s and 'syndrome' not in mutated:
             mutated.append('syndrome')
     after = (code.stabilizers.tobytes(), code.logicals.tobytes())
     mutated += [n for n, a, b in zip(('stabilizers', 'logicals'), snap, after) if a != b]
-    return {'result': ','.join(out), 'mutated': mutated}
+    r = {'result': ','.join(out), 'mutated': mutated}
+    if used:
+        r['grng'] = sorted(used)
+        r['grng_at'] = min(used.values())       # index of the first syndrome whose decoding advanced a global generator
+    return r
 
 
 def run_scenario(ops, ns):
@@ -117,8 +124,9 @@ def run_scenario(ops, ns):
 
 
 # ------------------------------------------------------------------ server
-def _child(scenarios, ns, idx, tmp):
+def _child(scenarios, ns, idx, tmp, salt=0):
     try:
+        W.set_salt(salt * 8191 + idx + 1)        # every fork: its own sequence of global-generator states
         res = run_scenario(scenarios[idx], ns)
     except BaseException as e:  # noqa
         res = [{'result': 'ERR! scenario ' + type(e).__name__, 'mutated': []}] * len(scenarios[idx])
@@ -126,7 +134,7 @@ def _child(scenarios, ns, idx, tmp):
         json.dump(res, f)
 
 
-def _lane(scenarios, ns, rfd, tmp):
+def _lane(scenarios, ns, rfd, tmp, salt=0):
     while True:
         tok = os.read(rfd, 8)
         if len(tok) < 8:
@@ -135,7 +143,7 @@ def _lane(scenarios, ns, rfd, tmp):
         pid = os.fork()
         if pid == 0:
             try:
-                _child(scenarios, ns, idx, tmp)
+                _child(scenarios, ns, idx, tmp, salt)
             finally:
                 os._exit(0)
         os.waitpid(pid, 0)
@@ -164,7 +172,7 @@ def main():
                 pid = os.fork()
                 if pid == 0:
                     try:
-                        _lane(scenarios, ns, rfd, tmp)
+                        _lane(scenarios, ns, rfd, tmp, job.get('salt', 0))
                     finally:
                         os._exit(0)
                 pids.append(pid)
@@ -184,8 +192,9 @@ def main():
         shutil.rmtree(tmp, ignore_errors=True)
 
 
-def serve(scenarios, hashseed=0, lanes=None, timeout=3000, cost=None):
-    """Run scenarios, each in a pristine fork of one freshly started interpreter; -> list of result lists."""
+def serve(scenarios, hashseed=0, lanes=None, timeout=3000, cost=None, salt=None):
+    """Run scenarios, each in a pristine fork of one freshly started interpreter; -> list of result lists.
+    salt: seeds the per-fork sequence of global `random` / numpy.random states (default: from the hash seed)."""
     from harness.common import REPO, VERIF
     if not scenarios:
         return []
@@ -195,7 +204,8 @@ def serve(scenarios, hashseed=0, lanes=None, timeout=3000, cost=None):
     lanes = lanes or min(16, max(2, (os.cpu_count() or 4)))
     order = sorted(range(len(scenarios)), key=lambda i: -(cost[i] if cost else len(scenarios[i])))
     p = subprocess.run([sys.executable, '-W', 'ignore', '-m', 'harness.c06_extra'],
-                       input=json.dumps({'scenarios': scenarios, 'lanes': lanes, 'order': order}),
+                       input=json.dumps({'scenarios': scenarios, 'lanes': lanes, 'order': order,
+                                         'salt': (hashseed * 31 + 7) if salt is None else salt}),
                        capture_output=True, text=True, env=env, timeout=timeout, cwd=VERIF)
     lines = [l for l in p.stdout.split('\n') if l.startswith('RESULTS ')]
     if not lines:
@@ -243,17 +253,23 @@ def _confirm(ctx, key, what, hist, target, expected, got, extra=None):
     preceding op; report the shortest history that reproduces the difference."""
     cands = hist[:3] + hist[-3:] if len(hist) > 6 else list(hist)
     cands = [dict(h, syndromes=h['syndromes'][:1]) for h in cands if h['op'] == 'sweep' and len(h['syndromes']) > 1] + cands
-    scen = [[target], [target]] + [[h, target] for h in cands] + [list(hist) + [target]]
+    na = len(GSEEDS) + 1
+    scen = [[dict(target, gseed=g)] for g in GSEEDS + GSEEDS[:1]] + [[h, target] for h in cands] + [list(hist) + [target]]
     res = serve(scen, hashseed=ctx.seed + 99)
-    alone1, alone2 = res[0][0]['result'], res[1][0]['result']
+    alone = [r[0]['result'] for r in res[:na]]
+    alone1 = alone[0]
     rep = {'target': target, 'fresh': expected[:400], 'in_history': got[:400], 'fresh_again': alone1[:400]}
     if extra:
         rep.update(extra)
-    if alone1 != alone2 or alone1 != expected:
-        rep['fresh_third'] = alone2[:400]
+    if len(set(alone)) > 1:
+        # not a matter of history at all: the operation alone, first thing in pristine forks, is not a function of
+        # its arguments (documented random components never get here: their toss is pinned by c06_worker.ambient)
+        _report_unreproducible(ctx, target, alone, [r[0].get('grng') for r in res[:na]], rep)
+        return
+    if alone1 != expected:
         ctx.violation('fresh-process-dependence', 'the same operation alone in two pristine processes gives different results', rep)
         return
-    for h, r in zip(cands, res[2:2 + len(cands)]):
+    for h, r in zip(cands, res[na:na + len(cands)]):
         if r[1]['result'] != alone1:
             rep.update(history=[h], in_history=r[1]['result'][:400], prior_changed_global_state=r[0].get('gstate'))
             ctx.violation(key, what + ' (minimal history: one prior operation)', rep)
@@ -262,6 +278,58 @@ def _confirm(ctx, key, what, hist, target, expected, got, extra=None):
     rep['history'] = list(hist)
     rep['reproduced_in_new_fork'] = full[-1]['result'] != alone1
     ctx.violation(key, what, rep)
+
+
+GSEEDS = (11, 222, 3333, 44444, 555555, 6666666)      # explicit states of the global generators for re-runs alone
+
+
+def _report_unreproducible(ctx, target, results, consumed, extra=None):
+    rep = dict(extra or {})
+    gs = list((GSEEDS + GSEEDS)[:len(results)])
+    same = [r for g, r in zip(gs, results) if g == gs[0]]
+    rep.update(target=target, gseeds=gs, results_alone_in_pristine_forks=[x[:400] for x in results],
+               varies_with=('nothing: identical settings give different results' if len(set(same)) > 1 else
+                            'the state of the process-global generators random / numpy.random'),
+               global_generators_consumed=consumed,
+               note='target executed alone as the first operation of a pristine fork, once per gseed, after '
+                    'random.seed(gseed); numpy.random.seed(gseed); the component is not one of the documented random '
+                    'ones (PlanarYDecoder, decoders constructed with stp, FileErrorModel)')
+    ctx.violation('not-reproducible-fresh', 'the same operation executed alone in pristine processes gives different results '
+                  'although the component is not documented as random; varies with: ' + rep['varies_with'], rep)
+
+
+def single_target(op, k=0):
+    """the k-th decode of a sweep as a single decode operation (other operations unchanged)"""
+    if op['op'] != 'sweep':
+        return {k2: v for k2, v in op.items() if k2 != 'new'}
+    tgt = {k2: v for k2, v in op.items() if k2 not in ('syndromes', 'new')}
+    tgt.update(op='decode', syndrome=op['syndromes'][k])
+    return tgt
+
+
+def rng_consumers(ctx, flagged, limit=6):
+    """flagged: [(op, index of the decode within a sweep or 0, which generators)] - operations of non-documented
+    components that advanced a process-global generator.  That alone is no violation; each distinct one is executed
+    alone in pristine forks under several states of the global generators: a differing result is."""
+    seen, todo = set(), []
+    for op, k, which in flagged:
+        key = (op['op'], op['code'], op['dec'], op['em'])
+        if key not in seen:
+            seen.add(key)
+            todo.append((single_target(op, k), which))
+    ctx.extra['global_generator_consumers'] = [{'op': {k: v for k, v in t.items()}, 'generators': w} for t, w in todo][:10]
+    todo = todo[:limit]
+    if not todo:
+        return
+    scen = [[dict(t, gseed=g)] for t, _ in todo for g in GSEEDS + GSEEDS[:1]]
+    res = serve(scen, hashseed=ctx.seed + 211)
+    na = len(GSEEDS) + 1
+    for i, (t, which) in enumerate(todo):
+        rs = res[i * na:(i + 1) * na]
+        alone = [r[0]['result'] for r in rs]
+        ctx.count(('grng', json.dumps(t, sort_keys=True)), True, 'global-generator-consumer-alone', n=na)
+        if len(set(alone)) > 1:
+            _report_unreproducible(ctx, t, alone, [r[0].get('grng') for r in rs], {'found_by': 'operation advanced ' + ', '.join(which)})
 
 
 def _first_diff(a, b):
@@ -304,6 +372,9 @@ def _wchoice(rng, pairs):
         if x < 0:
             return v
     return pairs[-1][0]
+
+
+RELATED_FLAGGED = []
 
 
 def related_block(ctx, ngroups):
@@ -402,6 +473,8 @@ def related_block(ctx, ngroups):
         for i, (pid, r) in enumerate(zip(sc, rs)):
             if 'gstate' in r:
                 changed.append((jobs[si][i], r['gstate']))
+            if 'grng' in r:
+                RELATED_FLAGGED.append((jobs[si][i], 0, r['grng']))
             if 'aliased' in r:
                 ctx.violation('returned-array-aliased', 'a recovery array returned by an earlier decode changed during a later call',
                               {'history': jobs[si][:i + 1], 'changed_result_of_op': r['aliased']})
@@ -534,11 +607,12 @@ def _chunks(T, nchunks):
     return [sorted(b[1]) for b in bins if b[1]]
 
 
-def _compare_targets(ctx, scen_ops, scen_res, tidx, fresh, T, label, nbad):
+def _compare_targets(ctx, scen_ops, scen_res, tidx, fresh, T, label, nbad, key='history-dependence-cross-component',
+                     after='after another component was used'):
     """scen_ops/scen_res: one scenario; tidx: {position in scenario: target index}."""
     for pos, ti in tidx.items():
         r, exp = scen_res[pos]['result'], fresh[ti]
-        ctx.count((label, ti), True, 'matrix-' + T[ti][0] + '-' + T[ti][1]['op'])
+        ctx.count((label, pos, ti), True, ('repeat-' if label == 'same-target-repeated' else 'matrix-') + T[ti][0] + '-' + T[ti][1]['op'])
         if r == exp:
             continue
         nbad[0] += 1
@@ -552,18 +626,22 @@ def _compare_targets(ctx, scen_ops, scen_res, tidx, fresh, T, label, nbad):
             tgt.update(op='decode', syndrome=op['syndromes'][k])
             # the sweep decoded syndromes[:k] before this one; keep them as the tail of the history
             pre = dict(op, syndromes=op['syndromes'][:k])
-            _confirm(ctx, 'history-dependence-cross-component',
-                     'the recovery for a syndrome differs from the recovery in a fresh process after another component was used',
+            _confirm(ctx, key,
+                     'the recovery for a syndrome differs from the recovery in a fresh process ' + after,
                      hist + ([pre] if k else []), tgt, exp.split(',')[k], r.split(',')[k],
                      {'prior': label, 'n_syndromes_differing_in_sweep': sum(a != b for a, b in zip(exp.split(','), r.split(',')))})
         else:
-            _confirm(ctx, 'history-dependence-cross-component',
-                     'the aggregate of a seeded run differs from the same run in a fresh process after another component was used',
+            _confirm(ctx, key,
+                     'the aggregate of a seeded run differs from the same run in a fresh process ' + after,
                      hist, op, exp, r, {'prior': label})
 
 
-def matrix_block(ctx, extra_priors=()):
-    """extra_priors: operations (from any block) observed to change process-global numeric state."""
+REPEATS = 3
+
+
+def matrix_block(ctx, extra_priors=(), flagged_elsewhere=()):
+    """extra_priors: operations (from any block) observed to change process-global numeric state.
+    flagged_elsewhere: (op, k, generators) of operations seen to advance a process-global generator in other blocks."""
     rng = ctx.rng
     ns = W.namespace()
     T = battery(ctx, ns, heavy=not ctx.quick)
@@ -571,10 +649,10 @@ def matrix_block(ctx, extra_priors=()):
     nch = ctx.pick(2, 4)
     chunks = _chunks(T, nch)
     scen, meta, cost = [], [], []
-    for ti, (fam, op, c) in enumerate(T):          # reference: every target first in a pristine fork
-        scen.append([op])
+    for ti, (fam, op, c) in enumerate(T):          # reference: every target first in a pristine fork ...
+        scen.append([op] * REPEATS)                # ... and again in the same process, other global-generator states
         meta.append(('fresh', ti))
-        cost.append(c)
+        cost.append(c * REPEATS)
     for name, pops in P:
         for ch in chunks:
             ch = list(ch)
@@ -589,8 +667,11 @@ def matrix_block(ctx, extra_priors=()):
     fresh = {m[1]: r[0]['result'] for m, r in zip(meta, res) if m[0] == 'fresh'}
     nbad = [0]
     changed = []          # (prior name, ops, state delta)
+    flagged = []          # operations of non-documented components that advanced a global generator
     for m, ops, rs in zip(meta, scen, res):
         for i, r in enumerate(rs):
+            if 'grng' in r:
+                flagged.append((ops[i], r.get('grng_at', 0), r['grng']))
             if r['mutated']:
                 ctx.violation('mutates-' + '-'.join(r['mutated']), 'a call modified the caller\'s arrays or the code matrices',
                               {'op': ops[i], 'mutated': r['mutated']})
@@ -605,6 +686,10 @@ def matrix_block(ctx, extra_priors=()):
                                'changed_result_of_op': r['aliased']})
         if m[0] != 'fresh':
             _compare_targets(ctx, ops, rs, m[1], fresh, T, m[0], nbad)
+        else:
+            _compare_targets(ctx, ops, rs, {j: m[1] for j in range(1, REPEATS)}, fresh, T, 'same-target-repeated', nbad,
+                             key='not-reproducible-in-process', after='when the very same operation is repeated in the same process')
+    rng_consumers(ctx, list(flagged_elsewhere) + flagged)
     ctx.extra['matrix_priors'] = [n for n, _ in P]
     ctx.extra['matrix_targets'] = len(T)
     ctx.extra['matrix_target_decodes'] = sum(len(t[1].get('syndromes', ())) for t in T)
